@@ -548,6 +548,72 @@ func scenarioSnapshotMarkers(name string) scenario {
 	}}
 }
 
+// scenarioSnapshotEarlyMarkers: no scheduling at all — the commits are made from inside the snapshot's own yield points:
+// an insert and a delete right after the recorder was installed (they end up in the chunk states AND in the recorded log,
+// and Restore must skip them by id), another insert and a delete after the chunks were written (they must be replayed)
+func scenarioSnapshotEarlyMarkers(name string) scenario {
+	return scenario{name: name, build: func(s *scheduler) (func(*scheduler) (string, string, string), func()) {
+		mk := func() *column.Collection {
+			c := column.NewCollection(column.Options{Capacity: 64, Vacuum: 24 * time.Hour})
+			c.CreateColumn("a", column.ForInt64())
+			return c
+		}
+		dump := func(c *column.Collection) string {
+			var parts []string
+			c.Query(func(txn *column.Txn) error {
+				return txn.Range(func(idx uint32) {
+					txn.QueryAt(idx, func(r column.Row) error {
+						a, ok := r.Int64("a")
+						parts = append(parts, fmt.Sprintf("%d{a=%d/%v}", idx, a, ok))
+						return nil
+					})
+				})
+			})
+			return strings.Join(parts, " ")
+		}
+		c := mk()
+		column.VerifSetYield(nil)
+		insertMarkers(c, 0, 1, 16384)
+		for _, r := range []uint32{0, 1, 16384} {
+			c.QueryAt(r, func(row column.Row) error { row.SetInt64("a", int64(r)); return nil })
+		}
+		var early, late uint32
+		column.VerifSetYield(func(p string) {
+			switch p {
+			case "s:opened":
+				early, _ = c.Insert(func(row column.Row) error { row.SetInt64("a", 100); return nil })
+				c.DeleteAt(1)
+				c.QueryAt(16384, func(row column.Row) error { row.MergeInt64("a", 5); return nil })
+			case "s:written":
+				late, _ = c.Insert(func(row column.Row) error { row.SetInt64("a", 200); return nil })
+				c.DeleteAt(early)
+				c.QueryAt(16384, func(row column.Row) error { row.MergeInt64("a", 7); return nil })
+			}
+		})
+		var snap bytes.Buffer
+		snapErr := c.Snapshot(&snap)
+		column.VerifSetYield(s.yield)
+		_ = late
+		want := dump(c)
+		check := func(s *scheduler) (string, string, string) {
+			column.VerifSetYield(nil)
+			if snapErr != nil {
+				return "snapfail", "Snapshot failed: " + snapErr.Error(), ""
+			}
+			q := mk()
+			defer q.Close()
+			if err := q.Restore(bytes.NewReader(snap.Bytes())); err != nil {
+				return "cut", "Restore of the snapshot failed: " + err.Error(), ""
+			}
+			if got := dump(q); got != want {
+				return "cut", fmt.Sprintf("every commit was made before Snapshot returned, yet the restored collection [%s] differs from the primary [%s] (commits recorded before their chunk was read must be skipped by id, the later ones replayed whole)", got, want), ""
+			}
+			return "", "", ""
+		}
+		return check, func() { c.Close() }
+	}}
+}
+
 // scenarioSnapshotInflight: a snapshot beside an insert whose offset is the first of a new chunk (the
 // reservation is in the fill list, the chunk is not allocated until the insert commits; defect D18)
 func scenarioSnapshotInflight(name string) scenario {
@@ -977,7 +1043,8 @@ func scenariosFor(prop string, tier string) []scenario {
 			scenarioSnapshotOpt("snap-midcommit", 2, 1, [][]uint32{{0}, {b1}}, true, false),
 			scenarioSnapshotOpt("snap-growth", 0, 0, nil, false, true),
 			scenarioSnapshotInflight("snap-inflight-insert"),
-			scenarioSnapshotMarkers("snap-markers"))
+			scenarioSnapshotMarkers("snap-markers"),
+			scenarioSnapshotEarlyMarkers("snap-early-markers"))
 	case "C11", "C02":
 		out = append(out, scenarioInserters("2ins", 2, 2, false), scenarioInserters("3ins", 3, 1, false), scenarioInserters("2ins-deleter", 2, 2, true))
 	case "C03":
